@@ -60,9 +60,9 @@ Theorem C16_prepass_fixpoint : forall n, ordered n = true -> prepass n = Some n.
 Proof. exact prepass_ordered. Qed.
 Print Assumptions C16_prepass_fixpoint.
 
-Theorem C16_emit_second_write : forall ts prog n n1, prepass n = Some n1 -> ordered n1 = true ->
+Theorem C16_emit_second_write : forall ts prog fl n n1, prepass n = Some n1 -> ordered n1 = true ->
   prepass n1 = Some n1 /\
-  forall n2, prepass n1 = Some n2 -> emit_file ts prog n2 = emit_file ts prog n1.
+  forall n2, prepass n1 = Some n2 -> emit_file ts prog fl n2 = emit_file ts prog fl n1.
 Proof. exact emit_second_write. Qed.
 Print Assumptions C16_emit_second_write.
 
